@@ -67,6 +67,11 @@ F = TypeVar("F", bound=Callable)
 def _mask(
     val: Union[pd.Series, pd.Index], null_mask: List[bool]
 ) -> Union[pd.Series, pd.Index]:
+    if len(val) == 0 or (
+        isinstance(val.dtype, np.dtype) and val.dtype.kind in "biu"
+    ):
+        # nothing to mask / numpy ints and bools cannot represent nulls
+        return val
     if pd.api.types.is_timedelta64_dtype(val):  # type: ignore [arg-type]
         return val.mask(null_mask, pd.NaT)  # type: ignore [union-attr,arg-type]
     elif val.dtype == pd.StringDtype():  # type: ignore [call-arg]
